@@ -644,7 +644,48 @@ func c03Corrupt(r *Rng, pk []Sx, dest []*c03N) ([]Sx, string) {
 			pk[i] = c03StatPk(s)
 		}
 		return pk, "symlink-xattr"
-	case k < 82: // content for ids nobody asked for
+	case k >= 76 && k < 84: // content for an id whose transfer has ended: after its terminator, often after everything else
+		type term struct {
+			at, id int
+			empty  bool // the id was served without a single byte
+		}
+		var terms []term
+		seen := map[int]bool{}
+		for i, x := range pk {
+			if x.L[0].Int() == 1 {
+				id := int(x.L[1].U64())
+				if len(x.L[2].B) == 0 {
+					terms = append(terms, term{i, id, !seen[id]})
+				}
+				seen[id] = true
+			}
+		}
+		if len(terms) == 0 {
+			return pk, "late-data"
+		}
+		t := Pick(r, terms)
+		if r.Chance(50) { // prefer the ones served empty
+			for _, u := range terms {
+				if u.empty {
+					t = u
+					break
+				}
+			}
+		}
+		at := t.at + 1 + r.Intn(len(pk)-t.at)
+		if r.Chance(50) && len(pk) > 0 && pk[len(pk)-1].L[0].Int() == 2 {
+			at = len(pk) - 1 // when the receiver has sent its FIN, just before ours
+		}
+		var d []byte
+		if r.Chance(75) {
+			d = []byte("L:" + fmt.Sprint(t.id))
+		}
+		pk = c03Insert(pk, at, L(N(1), NI(t.id), B(d)))
+		if r.Chance(25) {
+			pk = c03Insert(pk, at+1, L(N(1), NI(t.id), B(nil)))
+		}
+		return pk, "late-data"
+	case k < 76: // content for ids nobody asked for
 		at := 0
 		if len(pk) > 0 {
 			at = r.Intn(len(pk) + 1)
